@@ -62,3 +62,6 @@ func VerifParseTextSRT(line string, bold, italics, underline bool, color *string
 // VerifEscapeHTML / VerifUnescapeHTML expose the html replacers
 func VerifEscapeHTML(s string) string   { return escapeHTML(s) }
 func VerifUnescapeHTML(s string) string { return unescapeHTML(s) }
+
+// VerifReadNBytes exposes readNBytes
+func VerifReadNBytes(r io.Reader, n int) ([]byte, error) { return readNBytes(r, n) }
